@@ -205,6 +205,10 @@ class Interp:
         if "const" in o:
             c = o["const"]
             ty = c["ty"].get("n") or c["ty"]["k"]
+            if c.get("elems") is not None and c["ty"].get("k") == "array":
+                et = c["ty"]["t"].get("n") or c["ty"]["t"].get("k")
+                if et in WIDTH:
+                    return ("array", [BV.const(int(v) & ((1 << WIDTH[et]) - 1), et) for v in c["elems"]])
             if c["val"] is None or ty not in WIDTH:
                 return ("opaque", c["s"])
             v = int(c["val"])
@@ -220,7 +224,7 @@ class Interp:
         cur = env.get(p["local"], ("unk", p["local"]))
         for pr in p["proj"]:
             k = pr["p"]
-            if k == "field" and isinstance(cur, tuple) and cur[0] in ("tuple", "variant"):
+            if k == "field" and isinstance(cur, tuple) and cur[0] in ("tuple", "variant", "closure"):
                 cur = cur[-1][pr["i"]]
             elif k == "downcast":
                 pass
@@ -322,6 +326,11 @@ class Interp:
                 return ("tuple", fs)
             if rv["kind"] == "adt":
                 return ("variant", rv["variant"], fs)
+            if rv["kind"] == "closure":
+                # captures by reference are snapshotted: the captured locals of a varint routine are not mutated afterwards
+                caps = [("ref", _copyval(env.get(f[1]))) if isinstance(f, tuple) and f[0] == "ref" and isinstance(f[1], int)
+                        else f for f in fs]
+                return ("closure", rv["def"], caps)
         if k == "repeat":
             n = _parse_len(rv["n"])
             x = self.operand(body, env, rv["x"])
@@ -333,6 +342,33 @@ class Interp:
         return ("opaque", k)
 
     def _bin(self, op, l, r):
+        # number of significant bits: BITS - x.leading_zeros()
+        if op == "Sub" and isinstance(l, BV) and l.is_const() and isinstance(r, tuple) and r[0] == "lz" and \
+                l.value() == len(r[1].bits):
+            return ("width", r[1])
+        if op in ("Lt", "Le", "Gt", "Ge") and ((isinstance(l, tuple) and l[0] == "width" and isinstance(r, BV) and r.is_const()) or
+                                                (isinstance(r, tuple) and r[0] == "width" and isinstance(l, BV) and l.is_const())):
+            if isinstance(l, tuple):
+                x, c, o = l[1], r.value(), op
+            else:
+                x, c, o = r[1], l.value(), {"Lt": "Gt", "Le": "Ge", "Gt": "Lt", "Ge": "Le"}[op]
+            # normalise to `width <= c` / `width >= c`
+            if o == "Lt":
+                o, c = "Le", c - 1
+            elif o == "Gt":
+                o, c = "Ge", c + 1
+            n = len(x.bits)
+            if o == "Le":
+                if c < 0:
+                    return BV.const(0, "bool")
+                if c >= n:
+                    return BV.const(1, "bool")
+                return ("iszero", shr(x, c), False)            # width <= c  <=>  x < 2^c
+            if c <= 0:
+                return BV.const(1, "bool")
+            if c > n:
+                return BV.const(0, "bool")
+            return ("iszero", shr(x, c - 1), True)             # width >= c  <=>  x >= 2^(c-1)
         if not (isinstance(l, BV) and isinstance(r, BV)):
             return ("opaque", op)
         if op in ("Shl", "Shr") and r.is_const():
@@ -375,6 +411,15 @@ class Interp:
         return ("opaque", op)
 
     # --------------------------------------------------------------------------------------------
+    def _closure_of(self, env, x):
+        v = x
+        for _ in range(4):
+            if isinstance(v, tuple) and v[0] == "ref":
+                v = self._deref(env, v)
+            else:
+                break
+        return v if isinstance(v, tuple) and v[0] == "closure" else None
+
     def _slice_of(self, env, x):
         """list of items of an array / slice value reached through references"""
         v = x
@@ -507,6 +552,27 @@ class Interp:
                         raise Unsupported("conversion %s" % info["key"])
                 elif info["key"] in ("i32::wrapping_neg", "u32::wrapping_neg", "i8::wrapping_neg") and isinstance(args[0], BV):
                     res = neg(args[0])
+                elif info["key"].endswith("::leading_zeros") and isinstance(args[0], BV) and args[0].ty not in SIGNED:
+                    res = ("lz", args[0])
+                elif name in ("Fn::call", "FnMut::call_mut", "FnOnce::call_once") and self._closure_of(env, args[0]) is not None \
+                        and self.crate is not None and depth < 4:
+                    clos = self._closure_of(env, args[0])
+                    callee = self.crate.bodies.get(clos[1])
+                    if callee is None:
+                        raise Unsupported("call of an unknown closure inside a varint routine")
+                    tup = args[1] if len(args) > 1 else ("tuple", [])
+                    elems = tup[-1] if isinstance(tup, tuple) and tup[0] == "tuple" else [tup]
+                    first = ("ref", clos) if callee.locals[1]["ty"].get("k") == "ref" else clos
+                    cenv = {1: first}
+                    for i, a in enumerate(elems):
+                        cenv[i + 2] = _copyval(a)
+                    outs = []
+                    for ret, st2 in self._explore(callee, 0, cenv, st, depth + 1):
+                        e2 = _copyenv(env)
+                        self.write(body, e2, dest, ret)
+                        if t["t"] is not None:
+                            outs.extend(self._explore(body, t["t"], e2, st2, depth))
+                    return outs
                 elif self.crate is not None and info["def"] in self.crate.bodies and depth < 3 and not info["trait"]:
                     callee = self.crate.bodies[info["def"]]
                     cenv = {i + 1: _copyval(a) for i, a in enumerate(args)}
